@@ -8,7 +8,7 @@ if [ -n "$(git status --porcelain)" ]; then echo "repo dirty"; exit 2; fi
 meta=$src/meta.json
 demo=$(python3 -c "import json;print(json.load(open('$meta'))['demo_file'])")
 place=$(python3 -c "import json;print(json.load(open('$meta'))['demo_place'])")
-cmd=$(python3 -c "import json,re;print(re.sub(r'/tmp/wt[23456]?-C[0-9]+','/repo',json.load(open('$meta'))['demo_cmd']))")
+cmd=$(python3 -c "import json,re;print(re.sub(r'/tmp/wt[2-9]?-C[0-9]+','/repo',json.load(open('$meta'))['demo_cmd']))")
 cleanup() { cd /repo; git checkout -q -- .; rm -f "/repo/$place/$demo"; git clean -fdq -e verifhook; }
 trap cleanup EXIT
 cp "$src/$demo" "/repo/$place/$demo"
